@@ -155,10 +155,13 @@ for pid in ("C04", "C05", "C16"):
         "outside_claim": ["more than two groups per deployment, more than 2 order/provider slots", "provider deletion (unimplemented in the repo)", "Begin/EndBlock (empty for the akash modules)"],
         "assumptions": CHAIN_ASSUME}
 C16_CODEC = ["Harness_C16_codec_%s" % k for k in ("deployment", "group", "order", "bid_lease", "provider_audit")]
+C08_AUD = ["Harness_C08_audit_update_0", "Harness_C08_audit_update_2", "Harness_C08_audit_delete_1", "Harness_C08_audit_delete_2"]
 PROPS["C16"] = dict(PROPS["C16"])
 PROPS["C16"]["jobs"] = [chain_job("C16"),
     {"pkg": "zzverif/c16", "pkgname": "zzc16", "files": ["harness/C16/codec.go"], "quick": C16_CODEC, "thorough": C16_CODEC,
-     "opts": {"timeout": 20000, "witness": 4}, "reach": dict((h, ["parsed"]) for h in C16_CODEC)}]
+     "opts": {"timeout": 20000, "witness": 4}, "reach": dict((h, ["parsed"]) for h in C16_CODEC)},
+    {"pkg": "x/audit/keeper", "files": ["harness/C07/audit.go", "harness/C08/audit.go"], "shims": ["shim.go.tmpl", "shim_chain.go.tmpl"],
+     "quick": C08_AUD, "thorough": C08_AUD, "opts": {"timeout": 20000, "witness": 4}, "reach": {"Harness_C08_audit_update_2": ["event-checked"], "Harness_C08_audit_delete_2": ["event-checked"]}}]
 PROPS["C16"]["bounds"] = {k: v + "; event codecs: every typed event of the deployment, market, provider and audit modules with arbitrary uint64 dseq, uint32 gseq/oseq, price amount in [0,2^100), rendered by ToSDKEvent, stringified and parsed back by sdkutil.ParseEvent + the module's ParseEvent" for k, v in CHAIN_BOUNDS.items()}
 PROPS["C05"]["jobs"] = [chain_job("C05"), esc_job("C05")]
 PROPS["C01"]["jobs"] = PROPS["C01"]["jobs"] + [chain_job("C01")]
@@ -212,7 +215,6 @@ PROPS["C07"] = {
 }
 
 C08_M = ["Harness_C08_match_%s" % s for s in ("self_1", "self_2", "allof_1", "allof_2", "anyof_1", "anyof_2", "both", "none")]
-C08_AUD = ["Harness_C08_audit_update_0", "Harness_C08_audit_update_2", "Harness_C08_audit_delete_1", "Harness_C08_audit_delete_2"]
 def c08_chain():
     j = chain_job("C08")
     j["quick"] = ["Harness_C08_bid_self", "Harness_C08_bid_auditors", "Harness_C08_update_provider"]
